@@ -68,9 +68,9 @@ if [ "$PROP" = "C06" ]; then
 fi
 
 # valgrind over a few replayed seeds of the plain binary (uninitialised values; C10 thorough only)
-if [ "$PROP" = "C10" ] && [ "$TIER" = "thorough" ] && [ $rc -eq 0 ]; then
+if [ "$PROP" = "C10" ] && [ $rc -eq 0 ]; then
   ./build.sh vg > build/ev/build_vg.log 2>&1 || { echo "INFRA: vg build failed"; exit 2; }
-  ./valgrind_replays.sh "$SEED" 40 || rc=$?
+  ./valgrind_replays.sh "$SEED" $([ "$TIER" = "thorough" ] && echo 60 || echo 8) || rc=$?
 fi
 
 python3 tools/merge_evidence.py "$PROP" "$TIER" "$SEED" "evidence/$PROP.json" $EVS || { [ $rc -eq 0 ] && rc=2; }
